@@ -37,7 +37,7 @@ def _str_ops(rng):
         ("stripc", lambda x: x.strip(t)), ("split", lambda x: x.split(t)), ("splitws", lambda x: x.split()),
         ("replace", lambda x: x.replace(t, u)), ("count", lambda x: x.count(t)),
         ("lower", lambda x: x.lower()), ("upper", lambda x: x.upper()),
-        ("isnumeric", lambda x: x.isnumeric()), ("isspace", lambda x: x.isspace()), ("isdigit", lambda x: x.isdigit()),
+        ("isnumeric", lambda x: x.isnumeric()), ("isspace", lambda x: x.isspace()), ("isdigit", lambda x: x.isdigit()), ("isalpha", lambda x: x.isalpha()), ("isalnum", lambda x: x.isalnum()),
         ("slice", lambda x: x[i:j]), ("rev", lambda x: x[::-1]), ("len", lambda x: len(x)),
         ("add", lambda x: x + t), ("radd", lambda x: t + x), ("eq", lambda x: x == t), ("ne", lambda x: x != t),
         ("eqr", lambda x: t == x), ("inlist", lambda x: x in [t, u, s]), ("join", lambda x: type(x)(t).join([x, x]) if isinstance(x, SymStr) else t.join([x, x])),
